@@ -158,7 +158,8 @@ def report(prop, tier, seed, results, wall, write=True) -> int:
         )
     for job, tags in vacuous[:10]:
         print(f"VACUOUS property={prop} job={job.get('pid')} {job.get('opts')} never reached: {tags}")
-    if exit_code == 0 and (nonrepro or errors or vacuous):
+    strict = os.environ.get("VF_STRICT") == "1"
+    if exit_code == 0 and (errors or vacuous or (strict and nonrepro)):
         exit_code = 3
     obligations = len(results)
     ev = {
@@ -195,6 +196,7 @@ def report(prop, tier, seed, results, wall, write=True) -> int:
             "functions_encoded": sorted(functions),
             "samples": samples or [{"note": "no confirmed non-trivial path sampled"}],
             "known_findings": kf_out,
+            "nonreproducing_counterexamples": len(nonrepro),
             "jobs": per_job,
             "exhaustive": bool(obligations and discharged == obligations),
             "trusted_base": [
